@@ -9,9 +9,9 @@ VARIABLE in
 
 Shapes == {<<>>, <<"annotations">>, <<"urls", "platform">>, <<"urls", "data", "platform", "artifactType", "annotations">>}
 OCI  == [api : {"oci"}, keySpec : Keys, format : {"jws", "cose"}, signer : {"local", "localTSA", "pluginRaw", "pluginEnvelope"}, fields : Shapes,
-         meta : {"none", "one", "two", "odd"}, expiry : {0, 30, 3600, 86400}, blob : {"-"}, cmt : {"-"}]
+         meta : {"none", "one", "two", "odd"}, expiry : {0, 1, 30, 3600, 86400}, blob : {"-"}, cmt : {"-"}]
 Blob == [api : {"blob"}, keySpec : Keys, format : {"jws", "cose"}, signer : {"local", "localTSA", "pluginRaw", "pluginEnvelope"}, fields : {<<>>},
-         meta : {"none", "two", "odd"}, expiry : {0, 3600}, blob : {"0", "1", "64k1", "1m"}, cmt : {"octet", "custom"}]
+         meta : {"none", "two", "odd"}, expiry : {0, 1, 3600}, blob : {"0", "1", "64k1", "1m"}, cmt : {"octet", "custom"}]
 Init == in \in OCI \cup Blob
 Next == FALSE /\ in' = in
 Spec == Init /\ [][Next]_in
